@@ -552,7 +552,7 @@ class C10(Prop):
                             continue
                         yield {"level": levels[n % 3], "meth": METHODS[n % len(METHODS)], "url": "/p?q=1#f",
                                "headers": [[name, val], ["X-B", "w"]], "body": body, "chunked": ch, "bs": 16,
-                               "kind": "special"}
+                               "kind": "special", "bn": n % 5 == 0}
         # 3. URLs that are not origin-form (absolute form, '//', no slash): oracle only at pool/manager level
         for s in ["http://other.example/x", "http://h.example/a b#f", "http://h.example:80/\r\nX: y", "//h.example/x",
                   "http://h.example\r\n/", "http://[::1]/", "http://[::1%25eth0]/", "http://a%b/", "http://\xe9/",
@@ -598,6 +598,7 @@ class C10(Prop):
                 else:
                     c = self.with_field(c, field, v) if field in ("meth", "url") else c
             c["kind"] = "rand"
+            c["bn"] = rng.random() < 0.15
             yield c
 
     # ---------------------------------------------------------------- execution
@@ -616,6 +617,12 @@ class C10(Prop):
         headers = [tuple(h) for h in case["headers"]]
         hdict = dict(headers)
         headers = list(hdict.items())
+        if case.get("bn") and all(k.isascii() for k in hdict):
+            # header names handed over as bytes (http.client and urllib3 accept both): same request on the wire
+            # (ASCII names only: a non-UTF-8 bytes name fails in to_str() with a different exception class than
+            # the same code points given as str — both before anything is written; outside the model's domain)
+            hdict = {k.encode("ascii"): v for k, v in hdict.items()}
+            res.bump("bytes-header-names")
         chunked = bool(case["chunked"])
         body, btok, payload = build_body(case["body"])
         res.bump("level:" + level)
